@@ -60,12 +60,24 @@ impl Module for Tx {
             self.back.lock().unwrap().push((m.header().id, SimTime::now().as_nanos()));
             return;
         }
+        if m.header().kind == 499 {
+            return;
+        }
         let k = m.header().kind as usize;
+        let long = self.ticks[k].1.len() > 8;
+        if long {
+            // a long burst: something with a later deadline is buffered before it ...
+            schedule_in(Message::default().kind(499), Duration::from_secs(5));
+        }
         if let Some(ch) = current().gate("out", 0).and_then(|g| g.channel()) {
             self.busy.lock().unwrap().push((SimTime::now().as_nanos(), ch.is_busy(), ch.transmission_finish_time().as_nanos()));
         }
         for &(id, len) in &self.ticks[k].1 {
             send(Message::default().kind(DATA).id(id).with_content(Tok::new(len)), "out");
+        }
+        if long {
+            // ... and something with an earlier deadline after it
+            schedule_in(Message::default().kind(499), Duration::from_nanos(1));
         }
     }
 }
@@ -392,7 +404,7 @@ impl Property for C07 {
     fn rule(&self, tier: Tier) -> String {
         format!(
             "bitrate in {{0, 8 kbit/s, 1 Mbit/s, 2e12 (sub-ns transmission)}} x latency {{0, 1 ms}} x jitter {{0, 1 ms}} x policy {{Drop, Queue(None), Queue(0), Queue(163), Queue(164), Queue(329), Queue(1228)}} \
-             x every traffic pattern of 1..={} messages with body sizes {{0, 100, 1000}} B and gaps {{0 = burst in one handler, tx/2, tx, tx+1ns, 3tx}} (tx = transmission time of a 164 B message), plus a 2-hop variant through a forwarding module, plus a duplex variant in which the receiver offers the same traffic at the same instants in the opposite direction over the one connection (each direction must behave as a channel of its own); \
+             x every traffic pattern of 1..={} messages with body sizes {{0, 100, 1000}} B and gaps {{0 = burst in one handler, tx/2, tx, tx+1ns, 3tx}} (tx = transmission time of a 164 B message), plus bursts of 9 / 33 / 40 / 70 messages offered by one handler call that arms a later self message before and an earlier one after the burst, plus a 2-hop variant through a forwarding module, plus a duplex variant in which the receiver offers the same traffic at the same instants in the opposite direction over the one connection (each direction must behave as a channel of its own); \
              oracle: reference channel (each message delivered exactly once at start + size*8/bitrate + latency + [0, jitter) or dropped by the stated rule; FIFO start at the idle instant; order preserved with zero jitter; no body alive after the run; is_busy / transmission_finish_time sampled at every sender tick); \
              same-instant ties (offer exactly when the channel goes idle; busy sample exactly at an interval boundary) accept both resolutions; non-trivial = pattern in which a message meets a busy channel",
             tier.pick(4, 5)
@@ -405,9 +417,29 @@ impl Property for C07 {
         ]
     }
     fn required_features(&self, _tier: Tier) -> Vec<&'static str> {
-        vec!["message_dropped_by_rule", "message_queued_then_sent_at_idle_instant", "same_instant_tie", "sub_ns_transmission", "two_hop_variant", "byte_limit_edge", "both_directions_at_once"]
+        vec!["message_dropped_by_rule", "message_queued_then_sent_at_idle_instant", "same_instant_tie", "sub_ns_transmission", "two_hop_variant", "byte_limit_edge", "both_directions_at_once", "long_burst_from_one_handler"]
     }
     fn explore(&self, ctx: &mut Ctx) {
+        // long bursts offered by one handler call (after it armed an earlier self message)
+        for br in [0u64, 1_000_000, 2_000_000_000_000] {
+            for pol in [Pol::Drop, Pol::Q(None)] {
+                for n in [9usize, 33, 40, 70] {
+                    if !ctx.mine() {
+                        continue;
+                    }
+                    let offers: Vec<(u128, u16, usize)> = (0..n).map(|i| (1000u128, i as u16, if i % 3 == 0 { 100 } else { 0 })).collect();
+                    let c = Case { bitrate: br, lat: 1_000_000, jit: 0, pol, offers, two_hops: false, duplex: false };
+                    let mut f = Facts::default();
+                    ctx.begin(|| case_json(&c));
+                    ctx.out.evaluations += 1;
+                    ctx.hit("long_burst_from_one_handler");
+                    match run_case(&c, &mut f) {
+                        Ok(o) => ctx.outcome(o),
+                        Err(d) => ctx.violation("violation", || case_json(&c), d),
+                    }
+                }
+            }
+        }
         let maxm = ctx.tier.pick(4, 5);
         let bitrates = [0u64, 8_000, 1_000_000, 2_000_000_000_000];
         let sizes = [0usize, 100, 1000];
